@@ -175,7 +175,8 @@ func genC15(t *rapid.T) c15Scenario {
 	sc.AddQuery = pairs("addQuery", [][2]string{{"added", "1"}, {"added", "2"}, {"src", "pike"}, {"a", "dup"}})
 	sc.UpAE = rapid.SampledFrom([]string{"", "", "gzip", "gzip, br"}).Draw(t, "upAE")
 	n := rapid.IntRange(2, 7).Draw(t, "nReqs")
-	tails := []string{"x", "item/42", "a-b_c.d~e", "sp%20ace", "u%E2%9C%93", "deep/er/path", "x"}
+	// the last ones carry escapes a re-encoding would change (an escaped slash, lower-case hex, an escaped semicolon)
+	tails := []string{"x", "item/42", "a-b_c.d~e", "sp%20ace", "u%E2%9C%93", "deep/er/path", "x", "2020%2F09/report", "semi%3Bcolon", "lower%2fhex"}
 	queries := []string{"", "a=1", "a=1&b=2", "b=2&a=1", "a=1&a=2", "empty=", "enc=%E2%9C%93%20x", "k", "a=1&&b", "z=%2F%3F"}
 	for i := 0; i < n; i++ {
 		r := c15Req{Key: rapid.IntRange(0, 2).Draw(t, "key")}
@@ -224,8 +225,16 @@ func c15Path(sc c15Scenario, r c15Req, suffix string) (clientPath, upstreamPath 
 		}
 		return clientPath, c15Rewrite(sc.Rules, clientPath)
 	}
-	clientPath, upstreamPath = c15PathFixed(rewrite, tail)
-	return clientPath + suffix, upstreamPath + suffix
+	clientPath, _ = c15PathFixed(rewrite, tail)
+	clientPath += suffix
+	// the documented example rules, judged by the same reference as the generated ones
+	switch rewrite {
+	case 1:
+		return clientPath, c15Rewrite([]c15Rule{{Segs: []string{"api", "*"}, Value: []c15Tok{{Lit: "/"}, {Group: 1}}}}, clientPath)
+	case 2:
+		return clientPath, c15Rewrite([]c15Rule{{Segs: []string{"rest", "*", "user", "*"}, Value: []c15Tok{{Lit: "/"}, {Group: 1}, {Lit: "/"}, {Group: 2}}}}, clientPath)
+	}
+	return clientPath, clientPath
 }
 
 func c15PathFixed(rewrite int, tail string) (clientPath, upstreamPath string) {
